@@ -1,11 +1,13 @@
 (** VPNv4 / VPNv6 NLRI (yabgp/message/attribute/nlri/mpls_vpn.py) and their MP_REACH /
     MP_UNREACH branches.  Prefix octets: NLRI.construct_prefix_v4 / construct_prefix_v6 as
-    repaired by build/proposed/c07-1-construct-prefix-v6.diff and c07-2-construct-prefix-v4-zero.diff;
+    repaired by build/proposed/c07-1-construct-prefix-v6.diff, c07-2-construct-prefix-v4-zero.diff and
+    c08-prefix-length-range.patch;
     the label parser sees only the octets of the route being decoded
     (build/proposed/c11-label-stack-bound.diff). *)
 From YV Require Import lib.Base gen.Consts model.YMp model.YLabel.
 
-(** NLRI.construct_prefix_v4(masklen, prefix): 4 packed octets cut to 3 / 2 / 1 / 0 *)
+(** NLRI.construct_prefix_v4(masklen, prefix): 4 packed octets cut to 3 / 2 / 1 / 0 (the range
+    check of the length is [pfx_len_ok] in the callers' models below) *)
 Definition prefix4_octets (a l : N) : bytes :=
   let b := be 4 a in
   if (16 <? l) && (l <=? 24) then take 3 b
@@ -21,13 +23,20 @@ Definition pad_to (n : nat) (b : bytes) : bytes := b ++ repeat 0 (n - length b).
 
 Record vroute := { v_labels : list N; v_rd : rd; v_addr : N; v_len : N }.
 
+(** the prefix length must fit the address: construct_prefix_v4 raises ValueError outside 0..32
+    (fix: a prefix length outside the address size must be an error when an NLRI is
+    constructed, build/proposed/c08-prefix-length-range.patch); construct_prefix_v6 goes through
+    netaddr.IPNetwork(prefix), which raises above 128 *)
+Definition pfx_len_ok (v6 : bool) (l : N) : bool := l <=? (if v6 then 128 else 32).
+
 (** MPLSVPN.construct, one route *)
 Definition construct_vroute (v6 withdraw : bool) (r : vroute) : res bytes :=
   bind (if withdraw then Ok WITHDRAW_LABEL_HEX else construct_labels (v_labels r)) (fun lab =>
   bind (construct_rd (v_rd r)) (fun rdb =>
   let pfx := if v6 then prefix6_octets (v_addr r) (v_len r) else prefix4_octets (v_addr r) (v_len r) in
   let plen := v_len r + len (lab ++ rdb) * 8 in
-  if 255 <? plen then Exc else Ok ([plen] ++ lab ++ rdb ++ pfx))).
+  if negb (pfx_len_ok v6 (v_len r)) then Exc
+  else if 255 <? plen then Exc else Ok ([plen] ++ lab ++ rdb ++ pfx))).
 
 Fixpoint construct_vpn (v6 withdraw : bool) (rs : list vroute) : res bytes :=
   match rs with
